@@ -926,6 +926,13 @@ def correspondence(ctx):
         nontrivial = impl["err"] is not None or any(any(x is not None for x in sn["se"]) for sn in impl["snaps"])
         ok = ctx.compare_exact(stream, _strip(spec), impl_cmp, {k: mo[k] for k in ("snaps", "err", "sigin", "sigout")},
                                key=(stream, json.dumps(_strip(spec), sort_keys=True)), nontrivial=nontrivial)
+        # the hypotheses of the chain-rule theorems (`Prog.ssaEntries`, `Prog.rawOrdered`, evaluated by the model on this very
+        # program) must hold for every generated well-formed program; the malformed stream shows that they discriminate
+        if "ssa" in mo:
+            ctx.branch(f"{'malformed' if stream == 'malformed' else 'wellformed'}.ssa={mo['ssa']}.raw={mo['raw']}")
+            if stream != "malformed" and not (mo["ssa"] and mo["raw"]):
+                ctx.disagree(stream, _strip(spec), "generated as single-assignment and read-after-write ordered",
+                             {"ssa": mo["ssa"], "raw": mo["raw"]}, "program outside the hypotheses of backprop_is_total_derivative_of_response")
         # bookkeeping
         ctx.branch(f"{stream}.mods={min(len(mods), 40) // 5 * 5}+")
         ctx.branch(f"{stream}.depth={depth_of(spec['prog'])}")
